@@ -103,15 +103,38 @@ def h_select_mux(ctx, k):
             prove_invariant(ctx, part, nm)
 
 
-def h_derived(ctx, k):
-    """the reported ratios are derived from the same three shares: 1/GSNR = 1/OSNR_ASE + 1/SNR_NLI (linear)"""
+def h_derived(ctx, k, zero='none'):
+    """the reported ratios are derived from the same three shares: 1/GSNR = 1/OSNR_ASE + 1/SNR_NLI (linear); also when one
+    of the two noise shares is exactly zero on every channel (a line without amplifier: NLI but no ASE; amplifiers without
+    fibre: ASE but no NLI), where the identity reads GSNR = the other ratio"""
+    import math
     si = make_si(ctx, k)
-    for i in range(k):
-        ctx.assume(gt(si._ase_ratio[i], 0))
-        ctx.assume(gt(si._nli_ratio[i], 0))
+    if zero == 'none':
+        for i in range(k):
+            ctx.assume(gt(si._ase_ratio[i], 0))
+            ctx.assume(gt(si._nli_ratio[i], 0))
+    else:
+        keep = si._nli_ratio if zero == 'ase' else si._ase_ratio
+        for i in range(k):
+            ctx.assume(gt(keep[i], 0))
+        sig = np.empty(k, dtype=object)
+        for i in range(k):
+            sig[i] = 1 - keep[i]
+        si._signal_ratio = sig if ctx.mode == 'sym' else np.array([float(x) for x in sig])
+        if zero == 'ase':
+            si._ase_ratio = np.zeros(k)
+        else:
+            si._nli_ratio = np.zeros(k)
     g, sa, sn = si.gsnr, si.snr_lin, si.snr_nli
     for i in range(k):
-        ctx.prove(f'derived:inverse_sum[{i}]', eq(1 / g[i], 1 / sa[i] + 1 / sn[i]))
+        finite = is_symbolic(g[i]) or math.isfinite(g[i])
+        ctx.prove(f'derived:gsnr_finite_when_noise_present[{i}]', finite, info=dict(zero=zero, gsnr=str(g[i])))
+        if not finite:
+            continue
+        if zero == 'none':
+            ctx.prove(f'derived:inverse_sum[{i}]', eq(1 / g[i], 1 / sa[i] + 1 / sn[i]))
+        else:
+            ctx.prove(f'derived:gsnr_is_the_remaining_ratio[{i}]', eq(g[i], sn[i] if zero == 'ase' else sa[i]), info=dict(zero=zero))
         ctx.prove(f'derived:gsnr_def[{i}]', eq(g[i] * (si.ase[i] + si.nli[i]), si.signal[i]))
         ctx.prove(f'derived:db_consistent[{i}]', eq(si.gsnr_db[i], 10 * (g[i].log10() if ctx.mode == 'sym' else np.log10(g[i]))))
 
@@ -126,6 +149,8 @@ def jobs(tier):
         js.append(dict(name=f'H1a:select_mux:k{k}', fn='h_select_mux', params=dict(k=k)))
     for k in ks:
         js.append(dict(name=f'H1c:derived:k{k}', fn='h_derived', params=dict(k=k)))
+        for z in ('ase', 'nli'):
+            js.append(dict(name=f'H1c:derived:k{k}:zero_{z}', fn='h_derived', params=dict(k=k, zero=z)))
     for k in ks:
         js.append(dict(name=f'H1c:trx:k{k}', module='harness.elems', fn='h_trx', params=dict(k=k, n_added=0, props=('C01',))))
     js.append(dict(name='H1c:trx:update_twice:k2', module='harness.elems', fn='h_trx',
